@@ -174,6 +174,9 @@ class C20(C.ProgramDiff):
                     yp.assert_fact(yp.atom(t[1]), [impl.to_engine(yp, x, vm) for x in (t[2] if t[0] == 'f' else ())])
             # engine A: everything compiled
             ra = C.impl_answers(a[1], q, st, ref, it.steps, setup=setup_dyn)
+            if ra[0] == 'work':
+                decided -= 1
+                continue
             if ra[0] == 'exc':
                 return FAIL('all-compiled:exception:' + ra[1], {'text': case['text'], 'query': show(q), 'error': ra[2]})
             sig = C.compare_answers(st, ref, ra[1], ra[2])
@@ -211,6 +214,9 @@ class C20(C.ProgramDiff):
                     raise
                 boom = e
                 rb = ('boom', 'limit', e.partial)
+            if rb[0] == 'work':
+                decided -= 1
+                continue
             if rb[0] == 'exc':
                 return FAIL('mixed:exception:' + rb[1], self.detail(case, q, ref, None, rb[2]))
             if boom is not None:
@@ -327,6 +333,8 @@ class C20(C.ProgramDiff):
             finally:
                 g.close()
             return ('ok', status, out)
+        except impl.ImplWork:
+            return ('work', 'done', [])
         except impl.ImplBudget:
             return ('exc', 'impl-does-not-terminate', 'step budget')
         except tuple(BOOMS) as e:
